@@ -1,4 +1,5 @@
 import gfapy
+import re
 
 class NumericArray(list):
   """
@@ -201,6 +202,12 @@ class NumericArray(list):
       range = NumericArray.SUBTYPE_RANGE[subtype]
     def gen():
       for e in elems[1:]:
+        if not valid and not re.match(
+            r"^[-+]?[0-9]*\.?[0-9]+([eE][-+]?[0-9]+)?$" if subtype == "f"
+            else r"^[-+]?[0-9]+$", e):
+          raise gfapy.ValueError(
+              "Value is not valid: {}\n".format(e)+
+              "Numeric array string: {}".format(string))
         if subtype != "f":
           try:
             e = int(e)
